@@ -81,6 +81,21 @@ def _setup():
         constant_fields = {'hint': 'check the spelling'}
         message_template = "{a}: {hint}"
 
+    class Tagged:
+        """a field value with underscore and dunder attributes (what a class, a function or a record object has)"""
+        _tag = 'T1'
+        size = 3
+
+    class Deep(Feedback):
+        """the template reaches into its fields: attributes (also underscore/dunder ones) and a two-digit number"""
+        category = 'instructor'
+        message_template = "{t.__name__} {f.__name__:name} {o._tag} {o.size} line {n.real:line} {n:>4}"
+
+        def __init__(self, **kw):
+            f = dict(kw.pop('fields', {}))
+            f.update(t=int, f=len, o=Tagged(), n=14)
+            super().__init__(fields=f, **kw)
+
     class Parent(Feedback):
         category = 'instructor'
         title = 'ParentTitle'
@@ -104,7 +119,7 @@ def _setup():
              (g.gently, ('g',)), (g.explain, ('e',)), (g.compliment, ('c',)), (g.give_partial, (.5,)),
              (g.guidance, ('gu',)), (g.set_correct, ()), (g.system_error, ()),
              (initialization_problem, (Location(3), 'v')), (blank_source, ()), (not_enough_sections, (2, 1)),
-             (Parent, ()), (Child, ()), (GrandChild, ()), (AllFmt, ()), (ConstF, ())]
+             (Parent, ()), (Child, ()), (GrandChild, ()), (AllFmt, ()), (ConstF, ()), (Deep, ())]
     kws = [dict(), dict(message="explicit"), dict(message_template="tpl {a}"), dict(label='lab', title='Ti'),
            dict(activate=False), dict(delay_condition=True), dict(muted=True, score='5%'), dict(location=7),
            dict(activate=False, else_message='else!')]
